@@ -6,11 +6,24 @@
    Grammar: Format.item / wf_items / unparse; texts = the text each item stands for. *)
 From CelloV Require Import Generated Format FormatProofs.
 
-(* data re-extracted from the C source has the values the proofs use *)
+(* data re-extracted from the C source has the values the proofs use; when String_Format_To takes short texts
+   from the stack buffer its measuring vsnprintf wrote into (size < string_fmt_stack_limit), that buffer of
+   string_fmt_stack_cap bytes holds the complete text and its NUL - for every size *)
 Theorem source_constants :
-  print_pct_skip = 2 /\ print_buf_extra = 1 /\ string_fmt_room = 1 /\ file_fmt_returns_count = true /\ print_shape_ok = true.
-Proof. exact (conj FormatProofs.pct_skip_is_2 (conj FormatProofs.buf_extra_is_1 FormatProofs.source_shape)). Qed.
+  print_pct_skip = 2 /\ print_buf_extra = 1 /\ string_fmt_room = 1 /\ file_fmt_returns_count = true /\ print_shape_ok = true
+  /\ (forall size, size < string_fmt_stack_limit -> size + string_fmt_room <= string_fmt_stack_cap).
+Proof.
+  exact (conj FormatProofs.pct_skip_is_2 (conj FormatProofs.buf_extra_is_1
+          (conj (proj1 FormatProofs.source_shape) (conj (proj1 (proj2 FormatProofs.source_shape))
+            (conj (proj2 (proj2 FormatProofs.source_shape)) FormatProofs.stack_buffer_holds_text))))).
+Qed.
 Print Assumptions source_constants.
+
+(* the two accepted source forms of the "%%" test (with and without the `*fmt is '%'` half) are one test *)
+Theorem pct_test_guard_redundant : forall fmt i fuel c0,
+  rd fmt i = Some c0 -> Nat.eqb c0 0 = false -> skip_lit fmt i fuel = Ok i -> Nat.eqb c0 PCT = true.
+Proof. exact FormatProofs.pct_guard_redundant. Qed.
+Print Assumptions pct_test_guard_redundant.
 
 (* every conversion character the property names ends a specification in the scanner of Show.c *)
 Theorem conversions_recognised : List.forallb (fun c => memb c print_convs) std_convs = true.
